@@ -22,7 +22,7 @@ var solvers = []solverSpec{
 		return []string{"z3-new", fmt.Sprintf("-T:%d", int(t.Seconds())+1), f}
 	}},
 	{"z3-new 5.1.0 (e-matching only)", func(f string, t time.Duration) []string {
-		return []string{"z3-new", "smt.mbqi=false", "smt.auto_config=false", fmt.Sprintf("-T:%d", int(t.Seconds())+1), f}
+		return []string{"z3-new", "smt.mbqi=false", "smt.auto_config=false", "smt.solve_eqs=false", fmt.Sprintf("-T:%d", int(t.Seconds())+1), f}
 	}},
 	{"z3 4.8.12", func(f string, t time.Duration) []string {
 		return []string{"/usr/bin/z3", fmt.Sprintf("-T:%d", int(t.Seconds())+1), f}
@@ -39,7 +39,16 @@ type solveResult struct {
 	secs    float64
 }
 
+// at most this many solver processes at once (the sandbox has 16 cores)
+var solverSlots = make(chan struct{}, 16)
+
 func runSolver(ctx context.Context, s solverSpec, file string, timeout time.Duration) solveResult {
+	select {
+	case solverSlots <- struct{}{}:
+		defer func() { <-solverSlots }()
+	case <-ctx.Done():
+		return solveResult{verdict: "unknown", solver: s.name}
+	}
 	args := s.cmd(file, timeout)
 	c, cancel := context.WithTimeout(ctx, timeout+2*time.Second)
 	defer cancel()
@@ -51,11 +60,26 @@ func runSolver(ctx context.Context, s solverSpec, file string, timeout time.Dura
 	cmd.Run()
 	secs := time.Since(t0).Seconds()
 	text := out.String()
-	first := strings.TrimSpace(strings.SplitN(text, "\n", 2)[0])
 	v := "unknown"
-	switch first {
-	case "sat", "unsat":
-		v = first
+	for _, line := range strings.Split(text, "\n") {
+		line = strings.TrimSpace(line)
+		if line == "" || strings.HasPrefix(line, "WARNING") {
+			continue
+		}
+		if line == "sat" || line == "unsat" {
+			v = line
+		}
+		break
+	}
+	// keep warnings out of the stored output
+	if strings.Contains(text, "WARNING") {
+		var keep []string
+		for _, line := range strings.Split(text, "\n") {
+			if !strings.HasPrefix(line, "WARNING") {
+				keep = append(keep, line)
+			}
+		}
+		text = strings.Join(keep, "\n")
 	}
 	return solveResult{verdict: v, out: text, solver: s.name, secs: secs}
 }
